@@ -748,13 +748,33 @@ parameter(struct scope *s)
 	return d;
 }
 
+/* the members of an anonymous struct or union are members of the containing type */
+static void
+anonmembers(struct type *t, struct type *anon)
+{
+	struct member *m;
+	unsigned long long off = 0;
+
+	for (m = anon->u.structunion.members; m; m = m->next) {
+		if (!m->name)
+			anonmembers(t, m->type);
+		else if (typemember(t, m->name, &off))
+			error(&tok.loc, "duplicate member '%s'", m->name);
+	}
+}
+
 static void
 addmember(struct structbuilder *b, struct qualtype mt, char *name, int align, unsigned long long width)
 {
 	struct type *t = b->type;
 	struct member *m;
 	size_t end;
+	unsigned long long off = 0;
 
+	if (name && typemember(t, name, &off))
+		error(&tok.loc, "duplicate member '%s'", name);
+	if (!name && width == -1)
+		anonmembers(t, mt.type);
 	if (t->kind == TYPESTRUCT && t->flexible)
 		error(&tok.loc, "struct has member '%s' after flexible array member", name);
 	if (mt.type->incomplete) {
